@@ -15,6 +15,9 @@ CHECKS['C02'] = dict(tech='MIR symbolic execution (mirsym) of get_implied_block 
 CHECKS['C04'] = dict(tech='MIR symbolic execution (mirsym) of CommitQC/TimeoutQC verify+add, View/ReplicaCommit/ReplicaTimeout/ProposalJustification/LeaderProposal/ReplicaNewView/FinalBlock::verify with an ideal (ghost) signature model + z3',
     text='bounded (committees 1..3 / 1..4, <= 2 / 3 timeout-vote groups, bitmap lengths N-1..N+1, one nested certificate): verify()==Ok is equivalent to the acceptance condition of the statement on every path; no input panics; add()==Ok iff its condition and Err leaves the certificate unchanged; certificates assembled by add verify iff the weight reaches the quorum',
     note='trusted: ideal signature model (BLS itself, hashing, rogue keys outside), BitVec as list of Booleans, native container models', ref='4/C04')
+CHECKS['C10'] = dict(tech='MIR symbolic execution (mirsym) sweep of every ProtoFmt::read body and of the pre-verification view extraction + z3; Kani/CBMC for the std_conv converters and the mux header codec',
+    text='bounded (nesting depth <= 3, repeated fields <= 2): no panic / failed assert / unreachable reachable in any of the 50 message decoders on any symbolic proto struct, nor in view extraction on messages with arbitrary u64 numbers; converters of timestamps, durations, socket addresses, bit vectors decided bit-precisely by Kani over all field values',
+    note='trusted: ByteFmt::decode of keys/signatures/hashes returns arbitrary Ok/Err; prost/quick-protobuf wire parsing, snow, tokio are outside; multi-frame sequences are outside', ref='4/C10')
 NA = {
  'C01': 'agreement quantifies over all multi-node schedules x Byzantine behaviours x crash points of the async replica system; no bounded solver encoding of the real replicas is within reach (its local obligations are decided under C02, C03, C04, C05, C07, C11)',
  'C06': 'liveness over fair infinite suffixes from adversarially reached states; not expressible as a bounded symbolic-execution query',
